@@ -358,6 +358,7 @@ let parse_top (ws : string list) : tbl_op =
   | "tcapacity" -> TCapacity
   | "tallocsize" -> TAllocationSize
   | "tdrop" -> TDropTable
+  | "tclone" -> TReserve Z0                                           (* the table is replaced by its clone: contents unchanged *)
   | "tpar_iter" -> TIter
   | "tpar_iter_mut" -> TRetain ([], z 2)                             (* keep list is filled in by the caller *)
   | "tinto_par_iter" | "tpar_drain" | "tintoiter" -> TDrain (nat_of_int 0)         (* count filled in by the caller *)
@@ -923,7 +924,21 @@ let () =
            | TReserve n | TTryReserve n | TShrinkTo n | TWithCapacity n -> Z.ltb (zs "16777216") n
            | _ -> false) in
          if huge then bump branch "huge_capacity_request";
-         if do_c && lawful && not other_arm && not is_libpanic && not huge && not is_tpar then begin
+         if do_c && lawful && not other_arm && not is_libpanic && not huge && not is_tpar && topname = "tclone" then begin
+           (* HashTable::clone, the clone installed and the original dropped: Model/Clone.v clone_table, then the drop *)
+           incr c_checked;
+           bump branch "table_clone_model";
+           (match clone_table cfg.backend cfg.tsize cfg.talign (fun e -> Some e) tpre,
+                  table_step cfg.backend cfg.tsize cfg.talign cfg.needs_drop rehash_guard_unconditional (hash_of panic_key) refuse tpre TDropTable with
+            | Ok (Some t', evs1), Ok (_, evs2) ->
+              if table_text t' <> dump_text post then say "C-MISMATCH %s: clone: model [%s] impl [%s] pre [%s]" where (table_text t') (dump_text post) (dump_text pre);
+              let strip_r e = (let ws = List.filter (fun w -> not (String.length w > 2 && String.sub w 0 2 = "R:")) (words e) in if ws = [] then "-" else String.concat " " ws) in
+              let me = ev_text (evs1 @ evs2) and ie = strip_r (if ev_s = "" then "-" else ev_s) in
+              if me <> ie then say "C-MISMATCH %s: events of clone + drop of the original: model [%s] impl [%s]" where me ie
+            | Fail e, _ | _, Fail e -> say "C-MISMATCH %s: model (clone_table) stops with %s" where (err_text e)
+            | Ok (None, _), _ -> say "C-MISMATCH %s: model clone unwound" where)
+         end
+         else if do_c && lawful && not other_arm && not is_libpanic && not huge && not is_tpar then begin
            incr c_checked;
            (match table_step cfg.backend cfg.tsize cfg.talign cfg.needs_drop rehash_guard_unconditional (hash_of panic_key) refuse tpre op with
             | Fail e -> say "C-MISMATCH %s: model stops with %s but the implementation returned [%s]; pre=%s" where (err_text e) ret_s (dump_text pre)
